@@ -37,6 +37,9 @@ def templates():
             ("lshift|f", "f", "{f} << {s}"), ("rshift|f", "f", "{f} >> {s}"),
             ("check_zero|f", "b", "{f}.check_zero()"), ("check_nonzero|f", "b", "{f}.check_nonzero()"),
             ("check_positive|f", "b", "{f}.check_positive()"),
+            ("aug_alias|ff+", "f", "_aug({f}, {f}, '+')[1]"), ("aug_alias|fi-", "f", "_aug({f}, {i}, '-')[1]"),
+            ("aug_alias|fc+", "f", "_aug({f}, {c}, '+')[1]"), ("aug_alias|fk*", "f", "_aug({f}, {k}, '*')[1]"),
+            ("aug_res|ff+", "f", "_aug({f}, {f}, '+')[0]"), ("aug_res|fb-", "f", "_aug({f}, {b}, '-')[0]"),
             ("mulchain", "f", "{f} * {f} + {f} * {i} - {c}"), ("divchain", "f", "({f} + {i}) / ({f} * {f} + 1)")]
     return out
 
